@@ -26,6 +26,7 @@ import Kopf.Lemmas.C16_Merge
 import Kopf.Lemmas.C16_Ops
 import Kopf.Lemmas.C16_Keys
 import Kopf.Lemmas.C16_Clear
+import Kopf.Lemmas.C16_Multi
 namespace Kopf.C16
 open Kopf Kopf.J
 
@@ -150,6 +151,188 @@ theorem roundtrip_diffbase_status (env : Env) (field : Path) (body patch0 patch'
   have hm := merged_set_str hw' body field _ hp
   simp only [DLeaf.fetch, resolveD, hm, Option.getD_some, hc]
 
+/-! ## Multi storages (any tree of storages)
+
+`STree` mirrors the recursion of `MultiProgressStorage` (a Multi may contain Multis). Every
+operation on a tree is the operation on the flat list of its leaves (`tree_ops_flat`), and the
+theorems below are stated for trees through `t.flatten`. -/
+
+/-- a storage tree behaves, for all five operations, as the flat list of its leaves -/
+theorem tree_ops_flat (env : Env) (body : J) (k : Str) (r : Rec) (value patch : J) (t : STree) :
+    STree.store env body k r patch t = store env body k r patch t.flatten ∧
+    STree.fetch env body k t = fetch env body k t.flatten ∧
+    STree.purge env body k patch t = purge env body k patch t.flatten ∧
+    STree.touch env body value patch t = touch env body value patch t.flatten ∧
+    STree.clear patch t = clear patch t.flatten := by
+  refine ⟨?_, fetch_flatten env body k t, ?_, ?_, ?_⟩
+  · rw [STree.store, run_flatten, store_eq_runLeaves]
+  · rw [STree.purge, run_flatten, purge_eq_runLeaves]
+  · rw [STree.touch, run_flatten, touch_eq_runLeaves]
+  · rw [STree.clear, run_flatten, clear_eq_runLeaves]
+
+/-- the same for diff-base storage trees -/
+theorem dtree_ops_flat (env : Env) (body essence patch : J) (t : DTree) :
+    DTree.store env body essence t patch = dstore env body essence patch t.flatten ∧
+    DTree.fetch env body t = dfetch env body t.flatten :=
+  ⟨dstore_flatten env body essence t patch, dfetch_flatten env body t⟩
+
+/-- **Round trip through any Multi storage whose first leaf is an annotations storage** (Smart is
+    the instance `[ann, status(no-write)]`): if none of the later leaves writes at the head's v2
+    annotation, at `kind` or at `metadata.ownerReferences`, the stored record is what `fetch` of
+    the whole tree reads from the patched object. -/
+theorem roundtrip_multi (env : Env) (t : STree) (c : AnnCfg) (rest : Storage) (hflat : t.flatten = .ann c :: rest)
+    (body patch0 patch' : J) (k : Str) (r : Rec)
+    (hc : env.dec (env.enc (obj (stored c.verbose r))) = some (obj (stored c.verbose r)))
+    (hw : wf patch0 = true) (hs : MarkStable patch0) (hr : wf (obj r) = true)
+    (hrest : ∀ path ∈ rest.flatMap (Leaf.writes env body k),
+      diverge (annPath (v2Key c.pfx env.sfx (markKey (isDRS body) k))) path = true ∧
+      diverge ["kind"] path = true ∧ diverge ["metadata", "ownerReferences"] path = true)
+    (h : STree.store env body k r patch0 t = .ok patch') :
+    STree.fetch env (mergePatch body patch') k t = .ok (some (obj (stored c.verbose r))) := by
+  rw [(tree_ops_flat env body k r null patch0 t).1, hflat] at h
+  rw [(tree_ops_flat env (mergePatch body patch') k r null patch0 t).2.1, hflat]
+  simp only [store, Leaf.store] at h
+  cases h1 : annStore env c body patch0 k r with
+  | error e => rw [h1] at h; cases h
+  | ok p1 =>
+    rw [h1] at h
+    obtain ⟨hw1, hs1, hp1⟩ := annStore_facts hw hs h1
+    have t2 := store_touches hr rest h
+    have hw' := t2.keepsWf hw1
+    have hs' : MarkStable patch' :=
+      hs1.of_touches t2 (fun path hp => (hrest path hp).2.1) (fun path hp => (hrest path hp).2.2)
+    have hp' : probe patch' (annPath (v2Key c.pfx env.sfx (markKey (isDRS body) k)))
+        = .set (str (env.enc (obj (stored c.verbose r)))) := by
+      rw [t2.other _ (fun path hp => (hrest path hp).1)]; exact hp1
+    simp only [fetch, Leaf.fetch, annFetch_of_probe hw' hs' hp' hc (by simp)]
+
+/-- sufficient, checkable conditions for `roundtrip_multi`: the head's prefix is plain and every
+    later leaf is `LeafApart` from it (another plain prefix, or a status field outside `metadata`). -/
+theorem roundtrip_multi_apart (env : Env) (t : STree) (c : AnnCfg) (rest : Storage) (hflat : t.flatten = .ann c :: rest)
+    (body patch0 patch' : J) (k : Str) (r : Rec)
+    (hc : env.dec (env.enc (obj (stored c.verbose r))) = some (obj (stored c.verbose r)))
+    (hw : wf patch0 = true) (hs : MarkStable patch0) (hr : wf (obj r) = true)
+    (hp : PlainPrefix c.pfx) (hapart : ∀ l ∈ rest, LeafApart c.pfx l)
+    (h : STree.store env body k r patch0 t = .ok patch') :
+    STree.fetch env (mergePatch body patch') k t = .ok (some (obj (stored c.verbose r))) := by
+  refine roundtrip_multi env t c rest hflat body patch0 patch' k r hc hw hs hr ?_ h
+  intro path hpath
+  obtain ⟨l, hl, hpl⟩ := List.mem_flatMap.1 hpath
+  have ha := hapart l hl
+  cases l with
+  | ann c' =>
+    obtain ⟨hne, hp'⟩ := ha
+    -- every path the other annotations storage writes is an annotation `c'.pfx/…`
+    have hform : ∃ n', path = annPath (c'.pfx ++ '/' :: n') := by
+      simp only [Leaf.writes, List.mem_append, List.mem_map, List.mem_singleton] at hpl
+      rcases hpl with ⟨n, hn, rfl⟩ | rfl
+      · obtain ⟨name, rfl⟩ := own_names_of_makeKeys c'.pfx hp'.1 c'.v1 env.sfx _ n hn
+        exact ⟨name, rfl⟩
+      · exact ⟨"kopf-managed".toList, rfl⟩
+    obtain ⟨n', rfl⟩ := hform
+    refine ⟨?_, diverge_kind_ann _, diverge_owners_ann _⟩
+    apply diverge_annPath
+    rw [v2Key_eq, pre_of_ne hp.1]
+    intro e
+    have e' : c.pfx ++ '/' :: v2Name env.sfx (markKey (isDRS body) k) = c'.pfx ++ '/' :: n' := by
+      simpa using e
+    exact hne (slash_split_unique _ _ _ _ hp.2 hp'.2 e').1.symm
+  | status sc =>
+    simp only [Leaf.writes] at hpl
+    split at hpl
+    · cases hpl
+    · simp at hpl; subst hpl
+      exact ⟨ha.diverge_ann _ _, ha.diverge_kind _, ha.diverge_owners _⟩
+
+/-- **… whose first leaf is a (writing) status storage**: same conclusion as `roundtrip_status`. -/
+theorem roundtrip_multi_status_head (env : Env) (t : STree) (sc : StatusCfg) (rest : Storage)
+    (hflat : t.flatten = .status sc :: rest) (hnw : sc.noWrite = false)
+    (body patch0 patch' : J) (k : Str) (r : Rec) (hw : wf patch0 = true) (hr : FlatRec r)
+    (hcov : ∀ f, lookup f r = none →
+      lookup f (kvsOf ((resolve? body (sc.field ++ [String.ofList k])).getD null)) = none)
+    (hrest : ∀ path ∈ rest.flatMap (Leaf.writes env body k),
+      diverge (sc.field ++ [String.ofList k]) path = true)
+    (h : STree.store env body k r patch0 t = .ok patch') :
+    ∃ m, STree.fetch env (mergePatch body patch') k t = .ok (some (obj m)) ∧
+      ∀ f, lookup f m = lookup f (stored false r) := by
+  rw [(tree_ops_flat env body k r null patch0 t).1, hflat] at h
+  rw [(tree_ops_flat env (mergePatch body patch') k r null patch0 t).2.1, hflat]
+  simp only [store, Leaf.store] at h
+  cases h1 : statusStore sc patch0 k r with
+  | error e => rw [h1] at h; cases h
+  | ok p1 =>
+    rw [h1] at h
+    simp only [statusStore, hnw, Bool.false_eq_true, if_false] at h1
+    have t1 := touches_ensure (wf_of_flat hr) (liftD_ok h1)
+    have hw1 := t1.keepsWf hw
+    have t2 := store_touches (wf_of_flat hr) rest h
+    have hw' := t2.keepsWf hw1
+    have hp := probe_ensure_same _ _ _ _ (liftD_ok h1)
+    simp only [Probe.ofValue] at hp
+    have hm := resolve_merge (sc.field ++ [String.ofList k]) patch' hw' body
+    rw [t2.other _ hrest, hp] at hm
+    simp only [mergedAt, mergePatch_obj] at hm
+    refine ⟨_, ?_, lookup_merge_record _ r hr hcov⟩
+    simp only [fetch, Leaf.fetch, statusFetch_of_resolve sc _ k _ hm (by simp)]
+
+/-- diff-base Multi storages headed by an annotations storage -/
+theorem roundtrip_dmulti (env : Env) (t : DTree) (c : AnnDiffCfg) (rest : DStorage)
+    (hflat : t.flatten = .ann c :: rest) (body patch0 patch' essence : J)
+    (hc : env.dec (env.enc essence ++ newline) = some essence)
+    (hw : wf patch0 = true) (hs : MarkStable patch0) (he : essence ≠ null)
+    (hrest : ∀ path ∈ rest.flatMap (DLeaf.writes env body),
+      diverge (annPath (v2Key c.pfx env.sfx (markKey (isDRS body) c.key))) path = true ∧
+      diverge ["kind"] path = true ∧ diverge ["metadata", "ownerReferences"] path = true)
+    (h : DTree.store env body essence t patch0 = .ok patch') :
+    DTree.fetch env (mergePatch body patch') t = .ok (some essence) := by
+  rw [(dtree_ops_flat env body essence patch0 t).1, hflat] at h
+  rw [(dtree_ops_flat env (mergePatch body patch') essence patch0 t).2, hflat]
+  simp only [dstore] at h
+  cases h1 : DLeaf.store env body patch0 essence (.ann c) with
+  | error e => rw [h1] at h; cases h
+  | ok p1 =>
+    rw [h1] at h
+    obtain ⟨hw1, hs1, hp1⟩ := dannStore_facts hw hs h1
+    have t2 := dstore_touches rest h
+    have hw' := t2.keepsWf hw1
+    have hs' : MarkStable patch' :=
+      hs1.of_touches t2 (fun path hp => (hrest path hp).2.1) (fun path hp => (hrest path hp).2.2)
+    have hp' : probe patch' (annPath (v2Key c.pfx env.sfx (markKey (isDRS body) c.key)))
+        = .set (str (env.enc essence ++ newline)) := by
+      rw [t2.other _ (fun path hp => (hrest path hp).1)]; exact hp1
+    obtain ⟨rest', hn⟩ := makeKeys_head c.pfx c.v1 env.sfx (markKey (isDRS body) c.key)
+    have hf : DLeaf.fetch env (mergePatch body patch') (.ann c) = .ok (some essence) := by
+      simp only [DLeaf.fetch]
+      rw [annNames, isDRS_merge hw' hs' body, hn]
+      exact fetchNames_head env _ _ _ _ _ (merged_set_str hw' body _ _ hp') hc he
+    simp only [dfetch, hf]
+
+/-- … headed by a status storage (e.g. `Multi[StatusDiffBase, AnnotationsDiffBase]`) -/
+theorem roundtrip_dmulti_status_head (env : Env) (t : DTree) (field : Path) (rest : DStorage)
+    (hflat : t.flatten = .status field :: rest) (body patch0 patch' essence : J)
+    (hc : env.dec (env.enc essence) = some essence) (hw : wf patch0 = true) (he : essence ≠ null)
+    (hrest : ∀ path ∈ rest.flatMap (DLeaf.writes env body), diverge field path = true)
+    (h : DTree.store env body essence t patch0 = .ok patch') :
+    DTree.fetch env (mergePatch body patch') t = .ok (some essence) := by
+  rw [(dtree_ops_flat env body essence patch0 t).1, hflat] at h
+  rw [(dtree_ops_flat env (mergePatch body patch') essence patch0 t).2, hflat]
+  simp only [dstore] at h
+  cases h1 : DLeaf.store env body patch0 essence (.status field) with
+  | error e => rw [h1] at h; cases h
+  | ok p1 =>
+    rw [h1] at h
+    have t1 : Touches patch0 p1 [field] := dleaf_store_touches h1
+    have hw1 := t1.keepsWf hw
+    have t2 := dstore_touches rest h
+    have hw' := t2.keepsWf hw1
+    simp only [DLeaf.store] at h1
+    have hp := probe_ensure_same _ _ _ _ (liftD_ok h1)
+    simp only [Probe.ofValue] at hp
+    have hp' : probe patch' field = .set (str (env.enc essence)) := by rw [t2.other _ hrest]; exact hp
+    have hf : DLeaf.fetch env (mergePatch body patch') (.status field) = .ok (some essence) :=
+      roundtrip_status_leaf_fetch env field body patch' essence hc hw' he hp'
+    simp only [dfetch, hf]
+
 /-! ## Purge is complete -/
 
 /-- after `purge`, none of the handler's annotation names is on the patched object (whether the
@@ -225,6 +408,62 @@ theorem purge_complete_smart (env : Env) (a : AnnCfg) (sc : StatusCfg) (hf : Fie
         | none => simp
         | some y => exact absurd hsf (hst y)
 
+
+/-- **Purge through any Multi storage tree**: after `purge`, `fetch` of the whole tree finds nothing
+    (or fails on a corrupted status stanza, as before), provided the status fields are not under
+    `metadata`/`kind` and any two of them coincide or part ways. -/
+theorem purge_complete_multi (env : Env) (t : STree) (body patch0 patch' : J) (k : Str)
+    (hw : wf patch0 = true) (hs : MarkStable patch0)
+    (hf : ∀ sc, Leaf.status sc ∈ t.flatten → FieldApart sc.field)
+    (hcompat : ∀ sc sc', Leaf.status sc ∈ t.flatten → Leaf.status sc' ∈ t.flatten →
+      sc.field = sc'.field ∨
+      diverge (sc.field ++ [String.ofList k]) (sc'.field ++ [String.ofList k]) = true)
+    (h : STree.purge env body k patch0 t = .ok patch') :
+    ∀ x, STree.fetch env (mergePatch body patch') k t ≠ .ok (some x) := by
+  rw [(tree_ops_flat env body k [] null patch0 t).2.2.1, purge_eq_purgeAll] at h
+  rw [(tree_ops_flat env (mergePatch body patch') k [] null patch0 t).2.1]
+  generalize t.flatten = ls at *
+  have tt := purgeAll_touches _ h
+  have hw' := tt.keepsWf hw
+  have hcls : ∀ q ∈ ls.flatMap (Leaf.owns env body k),
+      (∃ n, q = annPath n) ∨ (∃ sc, Leaf.status sc ∈ ls ∧ q = sc.field ++ [String.ofList k]) := by
+    intro q hq
+    obtain ⟨l, hl, hql⟩ := List.mem_flatMap.1 hq
+    cases l with
+    | ann c =>
+      simp only [Leaf.owns, List.mem_map] at hql
+      obtain ⟨n, _, rfl⟩ := hql
+      exact Or.inl ⟨n, rfl⟩
+    | status sc =>
+      simp only [Leaf.owns, List.mem_singleton] at hql
+      exact Or.inr ⟨sc, hl, hql⟩
+  have hs' : MarkStable patch' := by
+    apply hs.of_touches tt
+    · intro path hp
+      obtain ⟨l, hl, hpl⟩ := List.mem_flatMap.1 hp
+      exact (leaf_owns_apart_mark l (fun sc e => hf sc (e ▸ hl)) path hpl).1
+    · intro path hp
+      obtain ⟨l, hl, hpl⟩ := List.mem_flatMap.1 hp
+      exact (leaf_owns_apart_mark l (fun sc e => hf sc (e ▸ hl)) path hpl).2
+  have hnone := purgeAll_none_compat _ hw
+    (by
+      intro q hq
+      rcases hcls q hq with ⟨n, rfl⟩ | ⟨sc, _, rfl⟩
+      · simp [annPath]
+      · simp)
+    (by
+      intro a ha b hb
+      rcases hcls a ha with ⟨n, rfl⟩ | ⟨sc, hsc, rfl⟩ <;> rcases hcls b hb with ⟨n', rfl⟩ | ⟨sc', hsc', rfl⟩
+      · exact annPath_compat n n'
+      · exact Or.inr ((hf sc' hsc').diverge_ann _ _)
+      · exact Or.inr ((hf sc hsc).diverge_ann' _ _)
+      · rcases hcompat sc sc' hsc hsc' with e | d
+        · exact Or.inl (by rw [e])
+        · exact Or.inr d) h
+  have hd := isDRS_merge hw' hs' body
+  exact fetch_not_some ls (fun l hl => leaf_fetch_not_some hd l
+    (fun q hq => hnone q (List.mem_flatMap.2 ⟨l, hl, hq⟩)))
+
 /-! ## Isolation: a store / purge / touch changes nothing but the handler's own names -/
 
 /-- `store` for `k`: every path of the patched object that parts ways with the handler's
@@ -292,8 +531,9 @@ theorem isolation_fetch (env : Env) (c : AnnCfg) (b1 b2 : J) (k' : Str) (hd : is
   rw [e]
   exact fetchNames_congr env b1 b2 _ h
 
-/-- the composition, spelled out: storing `k` does not change what a handler `k'` with disjoint
-    names (none of them the marker) reads. -/
+/-- name-level composition: storing `k` does not change what a handler `k'` with disjoint
+    *names* (none of them the marker) reads. The step from distinct *ids* to disjoint names is
+    `isolation_ids_short` / `isolation_ids_long` below (for `v1 = False`). -/
 theorem isolation_other_handler (env : Env) (c : AnnCfg) (body patch0 patch' : J) (k k' : Str) (r : Rec)
     (hw : wf patch0 = true) (hs : MarkStable patch0)
     (h : annStore env c body patch0 k r = .ok patch')
@@ -328,15 +568,46 @@ theorem other_prefix_disjoint (p p' n n' : Str) (hp : ∀ c ∈ p, c ≠ '/') (h
 
 /-- every generated name starts with `<prefix>/`: user annotations, which do not, are never touched -/
 theorem own_names_under_prefix (p : Str) (hp : p ≠ []) (v1 : Bool) (sfx : Str → Str) (k : Str) :
-    ∀ n ∈ makeKeys p v1 sfx k, ∃ name, n = p ++ '/' :: name := by
-  intro n hn
-  rcases makeKeys_cases p v1 sfx k with h | ⟨h, _⟩
-  · rw [h] at hn; simp at hn; subst hn
-    exact ⟨v2Name sfx k, by rw [v2Key_eq, pre_of_ne hp]; simp⟩
-  · rw [h] at hn; simp at hn
-    rcases hn with rfl | rfl
-    · exact ⟨v2Name sfx k, by rw [v2Key_eq, pre_of_ne hp]; simp⟩
-    · exact ⟨v1Name p sfx k, by rw [v1Key_eq, pre_of_ne hp]; simp⟩
+    ∀ n ∈ makeKeys p v1 sfx k, ∃ name, n = p ++ '/' :: name :=
+  own_names_of_makeKeys p hp v1 sfx k
+
+/-- the same for `purge` -/
+theorem isolation_other_handler_purge (env : Env) (c : AnnCfg) (body patch0 patch' : J) (k k' : Str)
+    (hw : wf patch0 = true) (hs : MarkStable patch0)
+    (h : annPurge env c body patch0 k = .ok patch')
+    (hdisj : ∀ n ∈ annNames env c.pfx c.v1 body k, ∀ n' ∈ annNames env c.pfx c.v1 body k', n' ≠ n) :
+    annFetch env c (mergePatch body patch') k' = annFetch env c (mergePatch body patch0) k' := by
+  unfold annPurge at h
+  have t := purgeAll_touches _ h
+  refine fetch_unchanged_of_touches hw hs t (hs.of_touches_ann t) ?_
+  intro n' hn' path hp
+  obtain ⟨n, hn, rfl⟩ := List.mem_map.1 hp
+  exact diverge_annPath (hdisj n hn n' hn')
+
+/-- **User data and other operators' records**: an annotation whose name is not `<prefix>/…` is
+    never changed by a store, a purge or a touch of this storage, whatever the handler id. -/
+theorem foreign_annotation_untouched (env : Env) (c : AnnCfg) (hp : c.pfx ≠ []) (body patch0 : J)
+    (hw : wf patch0 = true) (name : Str) (hn : ∀ x, name ≠ c.pfx ++ '/' :: x) :
+    (∀ k r ps, annStore env c body patch0 k r = .ok ps →
+      resolve? (mergePatch body ps) (annPath name) = resolve? (mergePatch body patch0) (annPath name)) ∧
+    (∀ k pp, annPurge env c body patch0 k = .ok pp →
+      resolve? (mergePatch body pp) (annPath name) = resolve? (mergePatch body patch0) (annPath name)) ∧
+    (∀ value pt, wf value = true → annTouch env c body patch0 value = .ok pt →
+      resolve? (mergePatch body pt) (annPath name) = resolve? (mergePatch body patch0) (annPath name)) := by
+  have hnames : ∀ k, ∀ n ∈ annNames env c.pfx c.v1 body k, diverge (annPath name) (annPath n) = true := by
+    intro k n hn'
+    obtain ⟨x, rfl⟩ := own_names_of_makeKeys c.pfx hp c.v1 env.sfx _ n hn'
+    exact diverge_annPath (hn x)
+  have hmark : diverge (annPath name) (annPath (markerName c.pfx)) = true :=
+    diverge_annPath (hn "kopf-managed".toList)
+  exact ⟨fun k r ps h => isolation_store_ann env c body patch0 ps k r hw h _ (hnames k) hmark,
+    fun k pp h => isolation_purge_ann env c body patch0 pp k hw h _ (hnames k),
+    fun value pt hv h => isolation_touch_ann env c body patch0 pt value hv hw h _ (hnames _) hmark⟩
+
+/-- in particular every annotation `<p'>/<n'>` of an operator with another plain prefix -/
+theorem other_prefix_untouched (p p' n' : Str) (hp : PlainPrefix p) (hp' : PlainPrefix p') (hne : p ≠ p') :
+    ∀ x, p' ++ '/' :: n' ≠ p ++ '/' :: x :=
+  fun x e => hne (slash_split_unique p' p n' x hp'.2 hp.2 e).1.symm
 
 /-! ## `clear` (what the diff sees): own annotations go, everything else stays -/
 
@@ -350,23 +621,69 @@ theorem clear_keeps_foreign (c : AnnCfg) (e e' : J) (h : annClear c e = .ok e') 
     resolve? e' ["metadata", "annotations", name] = resolve? e ["metadata", "annotations", name] :=
   annClear_keeps c e e' h name hu
 
-/-! ## Determinism -/
+/-! ## The names do not move
 
-/-- the annotation names are a function of (prefix, v1 flag, hash, Deployment-owned-ReplicaSet bit,
-    handler id) and of nothing else: not of `verbose`, the touch key, the patch, the rest of the
-    body, time or process state — identical across restarts. -/
-theorem deterministic (env : Env) (c c' : AnnCfg) (b b' : J) (k : Str)
-    (hp : c.pfx = c'.pfx) (hv : c.v1 = c'.v1) (hd : isDRS b = isDRS b') :
-    annNames env c.pfx c.v1 b k = annNames env c'.pfx c'.v1 b' k := by
-  simp only [annNames, hp, hv, hd]
+"Identical across restarts" has two halves. That nothing outside the arguments (process state, hash
+seed, dict order, time) enters is *not* a theorem about a Lean function — it is what the tie checks
+on the real code (fresh storage object, fresh interpreter with another hash seed, recorded golden
+names). What can fail inside the mechanism is the other half: the names are recomputed from the
+object at every fetch/purge, so they must not depend on anything a cycle changes. -/
+
+/-- the names depend on the body only through `kind` and `metadata.ownerReferences`: annotations,
+    labels, spec, status, resourceVersion … may change between store and fetch (or across a restart)
+    without moving a single record -/
+theorem names_depend_on_kind_and_owners (env : Env) (p : Str) (v1 : Bool) (b b' : J) (k : Str)
+    (h1 : resolve? b ["kind"] = resolve? b' ["kind"])
+    (h2 : resolve? b ["metadata", "ownerReferences"] = resolve? b' ["metadata", "ownerReferences"]) :
+    annNames env p v1 b k = annNames env p v1 b' k := by
+  simp only [annNames, isDRS_congr h1 h2]
+
+/-- … and no store or purge of any storage tree (status fields outside `metadata`/`kind`) moves
+    them: on the patched object every handler id has the names it had before the PATCH -/
+theorem names_stable (env : Env) (t : STree) (body patch0 ps pp : J) (k : Str) (r : Rec)
+    (hw : wf patch0 = true) (hs : MarkStable patch0) (hr : wf (obj r) = true)
+    (hf : ∀ sc, Leaf.status sc ∈ t.flatten → FieldApart sc.field)
+    (hstore : STree.store env body k r patch0 t = .ok ps) (hpurge : STree.purge env body k patch0 t = .ok pp)
+    (p : Str) (v1 : Bool) (k' : Str) :
+    annNames env p v1 (mergePatch body ps) k' = annNames env p v1 body k' ∧
+    annNames env p v1 (mergePatch body pp) k' = annNames env p v1 body k' := by
+  rw [(tree_ops_flat env body k r null patch0 t).1] at hstore
+  rw [(tree_ops_flat env body k r null patch0 t).2.2.1, purge_eq_purgeAll] at hpurge
+  have t1 := store_touches hr _ hstore
+  have t2 := purgeAll_touches _ hpurge
+  have hs1 : MarkStable ps := by
+    apply hs.of_touches t1
+    · intro path hp
+      obtain ⟨l, hl, hpl⟩ := List.mem_flatMap.1 hp
+      exact (leaf_writes_apart_mark l (fun sc e => hf sc (e ▸ hl)) path hpl).1
+    · intro path hp
+      obtain ⟨l, hl, hpl⟩ := List.mem_flatMap.1 hp
+      exact (leaf_writes_apart_mark l (fun sc e => hf sc (e ▸ hl)) path hpl).2
+  have hs2 : MarkStable pp := by
+    apply hs.of_touches t2
+    · intro path hp
+      obtain ⟨l, hl, hpl⟩ := List.mem_flatMap.1 hp
+      exact (leaf_owns_apart_mark l (fun sc e => hf sc (e ▸ hl)) path hpl).1
+    · intro path hp
+      obtain ⟨l, hl, hpl⟩ := List.mem_flatMap.1 hp
+      exact (leaf_owns_apart_mark l (fun sc e => hf sc (e ▸ hl)) path hpl).2
+  exact ⟨by simp only [annNames, isDRS_merge (t1.keepsWf hw) hs1 body],
+    by simp only [annNames, isDRS_merge (t2.keepsWf hw) hs2 body]⟩
 
 /-! ## Valid Kubernetes names -/
+
+/- The property says: "generated annotation names are ALWAYS valid Kubernetes names", i.e.
+     ∀ p k, validPrefix p → IdOk k → validQualified (v2Key p sfx k) ∧ validQualified (v1Key p sfx k).
+   That statement is FALSE of the code (`edge_witness`, `edge_witness_front`: F6; `v1_long_prefix_witness`:
+   F6c). What holds is the statement under the exact guards `EdgeAlnum (safeKey k)` (v2 and v1) and
+   "room for one character" (v1), hence `_partial`. `GoodSfx` is a fact about the real digest suffix
+   (7 characters `-xxxxxx`, last one of `AQgw`), checked by the oracle on every hashed name. -/
 
 /-- v2 names (the ones written and read first): under a valid prefix, for an id over the
     property's alphabet whose safe form is alphanumeric at both ends, with a usable hash suffix
     when the id is longer than 63: `prefix/name` with a valid name part of at most 63 characters,
     and at most 253 in total when the prefix has at most 189. -/
-theorem valid_name_v2 (p : Str) (sfx : Str → Str) (k : Str) (hp : validPrefix p = true) (hk : IdOk k)
+theorem valid_name_v2_partial (p : Str) (sfx : Str → Str) (k : Str) (hp : validPrefix p = true) (hk : IdOk k)
     (he : EdgeAlnum (safeKey k)) (hs : k.length > 63 → GoodSfx (sfx k)) :
     ∃ n, v2Key p sfx k = p ++ '/' :: n ∧ validNamePart n = true ∧ n.length ≤ 63 ∧
       validQualified (v2Key p sfx k) = true ∧ (p.length ≤ 189 → (v2Key p sfx k).length ≤ 253) := by
@@ -380,7 +697,7 @@ theorem valid_name_v2 (p : Str) (sfx : Str → Str) (k : Str) (hp : validPrefix 
 /-- v1 names (written next to the v2 names while `v1=True`): additionally the prefix, the `/` and
     the suffix must leave room for at least one character of the id (`|prefix| + 1 + |suffix| < 63`,
     i.e. a prefix of at most 54 characters with the real 7-character suffix). -/
-theorem valid_name_v1 (p : Str) (sfx : Str → Str) (k : Str) (hp : validPrefix p = true) (hk : IdOk k)
+theorem valid_name_v1_partial (p : Str) (sfx : Str → Str) (k : Str) (hp : validPrefix p = true) (hk : IdOk k)
     (he : EdgeAlnum (safeKey k))
     (hs : ¬ ((safeKey k).length : Int) ≤ 63 - ((pre p).length : Int) →
       GoodSfx (sfx (safeKey k)) ∧ (pre p).length + (sfx (safeKey k)).length < 63) :
@@ -406,9 +723,16 @@ theorem valid_name_marked (k : Str) (hk : IdOk k) (he : headAlnum (safeKey k) = 
 
 /-! ## Distinct names -/
 
+/- The property says: "names are distinct for long ids that share a prefix", i.e.
+     ∀ k ≠ k' (both longer than 63), v2Key p sfx k ≠ v2Key p sfx k'.
+   FALSE of the code for the real 32-bit digest (`collision_witness` + the birthday search replayed on
+   every run: F6b), and for ids in general (`safe_form_witness` F6d, `forged_witness` F6e). The
+   theorems below are what is left: the cut-and-append never loses a difference the digest (resp. the
+   safe form) still shows — they do NOT establish the clause, hence `_partial`. -/
+
 /-- two ids longer than 63 characters (sharing any prefix) whose hash suffixes differ (and have the
     same length, as the real ones do) get different v2 names -/
-theorem distinct (p : Str) (sfx : Str → Str) (k k' : Str) (hk : k.length > 63) (hk' : k'.length > 63)
+theorem distinct_partial (p : Str) (sfx : Str → Str) (k k' : Str) (hk : k.length > 63) (hk' : k'.length > 63)
     (hl : (sfx k).length = (sfx k').length) (hl63 : (sfx k).length ≤ 63) (hne : sfx k ≠ sfx k') :
     v2Key p sfx k ≠ v2Key p sfx k' := by
   intro e
@@ -419,11 +743,59 @@ theorem distinct (p : Str) (sfx : Str → Str) (k k' : Str) (hk : k.length > 63)
   exact hne this.2
 
 /-- ids of at most 63 characters with different safe forms get different v2 names -/
-theorem distinct_short (p : Str) (sfx : Str → Str) (k k' : Str) (hk : k.length ≤ 63) (hk' : k'.length ≤ 63)
+theorem distinct_short_partial (p : Str) (sfx : Str → Str) (k k' : Str) (hk : k.length ≤ 63) (hk' : k'.length ≤ 63)
     (hne : safeKey k ≠ safeKey k') : v2Key p sfx k ≠ v2Key p sfx k' := by
   intro e
   rw [v2Key_eq, v2Key_eq, v2Name_short hk, v2Name_short hk'] at e
   exact hne (List.append_cancel_left e)
+
+/-! ## Id-level isolation (assembled from the above) -/
+
+/-- **Id-level isolation, `v1 = False`, ids of at most 63 characters** (after marking): two
+    handlers whose *safe forms* differ do not disturb each other — a store or a purge of `k` leaves
+    what `k'` reads unchanged (`k'` must not spell the `kopf-managed` marker).
+    With equal safe forms this is false (`safe_form_witness`, F6d); for `v1 = True` no id-level
+    statement of this kind holds for every prefix (`v1_negative_cut_witness`, F6f). -/
+theorem isolation_ids_short (env : Env) (c : AnnCfg) (hv1 : c.v1 = false) (hp : c.pfx ≠ [])
+    (body patch0 ps pp : J) (k k' : Str) (r : Rec) (hw : wf patch0 = true) (hs : MarkStable patch0)
+    (hk : (markKey (isDRS body) k).length ≤ 63) (hk' : (markKey (isDRS body) k').length ≤ 63)
+    (hne : safeKey k ≠ safeKey k')
+    (hm : safeKey (markKey (isDRS body) k') ≠ "kopf-managed".toList)
+    (hstore : annStore env c body patch0 k r = .ok ps) (hpurge : annPurge env c body patch0 k = .ok pp) :
+    annFetch env c (mergePatch body ps) k' = annFetch env c (mergePatch body patch0) k' ∧
+    annFetch env c (mergePatch body pp) k' = annFetch env c (mergePatch body patch0) k' := by
+  have hn : ∀ x, annNames env c.pfx c.v1 body x = [v2Key c.pfx env.sfx (markKey (isDRS body) x)] := by
+    intro x; simp [annNames, makeKeys, hv1]
+  have hd : v2Key c.pfx env.sfx (markKey (isDRS body) k') ≠ v2Key c.pfx env.sfx (markKey (isDRS body) k) :=
+    fun e => distinct_short_partial c.pfx env.sfx _ _ hk hk' (safeKey_markKey_ne hne) e.symm
+  refine ⟨isolation_other_handler env c body patch0 ps k k' r hw hs hstore ?_ ?_,
+    isolation_other_handler_purge env c body patch0 pp k k' hw hs hpurge ?_⟩
+  · intro n hn1 n' hn2; rw [hn] at hn1 hn2; simp at hn1 hn2; subst hn1; subst hn2; exact hd
+  · intro n' hn2; rw [hn] at hn2; simp at hn2; subst hn2
+    exact v2Key_ne_marker_short hp env.sfx hk' hm
+  · intro n hn1 n' hn2; rw [hn] at hn1 hn2; simp at hn1 hn2; subst hn1; subst hn2; exact hd
+
+/-- **Id-level isolation, `v1 = False`, ids longer than 63 characters** (sharing any prefix), as
+    long as their digests differ (`collision_witness`, F6b, is the other case). -/
+theorem isolation_ids_long (env : Env) (c : AnnCfg) (hv1 : c.v1 = false) (hp : c.pfx ≠ [])
+    (body patch0 ps pp : J) (k k' : Str) (r : Rec) (hw : wf patch0 = true) (hs : MarkStable patch0)
+    (hk : (markKey (isDRS body) k).length > 63) (hk' : (markKey (isDRS body) k').length > 63)
+    (hl : (env.sfx (markKey (isDRS body) k)).length = (env.sfx (markKey (isDRS body) k')).length)
+    (hl63 : (env.sfx (markKey (isDRS body) k)).length ≤ 63)
+    (hne : env.sfx (markKey (isDRS body) k) ≠ env.sfx (markKey (isDRS body) k'))
+    (hstore : annStore env c body patch0 k r = .ok ps) (hpurge : annPurge env c body patch0 k = .ok pp) :
+    annFetch env c (mergePatch body ps) k' = annFetch env c (mergePatch body patch0) k' ∧
+    annFetch env c (mergePatch body pp) k' = annFetch env c (mergePatch body patch0) k' := by
+  have hn : ∀ x, annNames env c.pfx c.v1 body x = [v2Key c.pfx env.sfx (markKey (isDRS body) x)] := by
+    intro x; simp [annNames, makeKeys, hv1]
+  have hd : v2Key c.pfx env.sfx (markKey (isDRS body) k') ≠ v2Key c.pfx env.sfx (markKey (isDRS body) k) :=
+    fun e => distinct_partial c.pfx env.sfx _ _ hk hk' hl hl63 hne e.symm
+  refine ⟨isolation_other_handler env c body patch0 ps k k' r hw hs hstore ?_ ?_,
+    isolation_other_handler_purge env c body patch0 pp k k' hw hs hpurge ?_⟩
+  · intro n hn1 n' hn2; rw [hn] at hn1 hn2; simp at hn1 hn2; subst hn1; subst hn2; exact hd
+  · intro n' hn2; rw [hn] at hn2; simp at hn2; subst hn2
+    exact v2Key_ne_marker_long hp env.sfx hk' (by omega)
+  · intro n hn1 n' hn2; rw [hn] at hn1 hn2; simp at hn1 hn2; subst hn1; subst hn2; exact hd
 
 /-! ## Each hypothesis is necessary: witnesses (the open findings F6, F6b–F6e) -/
 
@@ -460,7 +832,7 @@ theorem sfx_witness :
     validQualified (v2Key kz (constSfx "-ab.") (xs 64)) = false := by
   decide
 
-/-- **F6c** the room hypothesis of `valid_name_v1` is necessary: with a valid 55-character prefix
+/-- **F6c** the room hypothesis of `valid_name_v1_partial` is necessary: with a valid 55-character prefix
     the v1 name of a hashed id is the bare suffix (starts with `-`); with a 60-character prefix
     the cut is negative — a slice from the end — and the v1 name part is longer than 63. -/
 theorem v1_long_prefix_witness :
@@ -480,7 +852,7 @@ theorem v1_negative_cut_witness :
       = v2Key (List.replicate 63 'a') (constSfx "-AAAAAQ") (safeKey ("a/".toList ++ xs 62)) := by
   decide
 
-/-- **F6b** `sfx k ≠ sfx k'` in `distinct` is necessary: whenever the suffixes of two long ids
+/-- **F6b** `sfx k ≠ sfx k'` in `distinct_partial` is necessary: whenever the suffixes of two long ids
     collide and the ids agree on the characters kept, the v2 names coincide … -/
 theorem collision_witness (p : Str) (sfx : Str → Str) (k k' : Str) (hk : k.length > 63) (hk' : k'.length > 63)
     (hs : sfx k = sfx k')
@@ -492,7 +864,7 @@ theorem collision_witness (p : Str) (sfx : Str → Str) (k k' : Str) (hk : k.len
 example : xs 64 ≠ xs 65 ∧ v2Key kz (constSfx "-AAAAAQ") (xs 64) = v2Key kz (constSfx "-AAAAAQ") (xs 65) := by
   decide
 
-/-- **F6d** `safeKey k ≠ safeKey k'` in `distinct_short` is necessary: ids with the same safe form
+/-- **F6d** `safeKey k ≠ safeKey k'` in `distinct_short_partial` is necessary: ids with the same safe form
     (at most 63 characters) get the same names under every configuration and hash … -/
 theorem safe_form_witness (p : Str) (v1 : Bool) (sfx : Str → Str) (k k' : Str)
     (hs : safeKey k = safeKey k') (hk : k.length ≤ 63) :
@@ -509,7 +881,7 @@ theorem safe_form_witness (p : Str) (v1 : Bool) (sfx : Str → Str) (k k' : Str)
 example : "fn/spec.field".toList ≠ "fn/spec/field".toList ∧
     safeKey "fn/spec.field".toList = safeKey "fn/spec/field".toList := by decide
 
-/-- **F6e** "both ids longer than 63" in `distinct` is necessary: the 63-character id that spells
+/-- **F6e** "both ids longer than 63" in `distinct_partial` is necessary: the 63-character id that spells
     the cut-and-hashed name of a longer id gets the same v2 name without any hash collision. -/
 theorem forged_witness :
     xs 56 ++ "-AAAAAQ".toList ≠ xs 64 ∧ (xs 56 ++ "-AAAAAQ".toList).length = 63 ∧
@@ -531,8 +903,15 @@ theorem status_cover_witness :
 
 /-! ## Non-vacuity: the hypotheses of the theorems are met by concrete, non-trivial instances -/
 
+/-- a codec that tells the values of these examples apart (`hc` only ever asks for the instance of
+    the round-trip law at the value written; CPython's `json` itself is exercised by the tie) -/
 def env0 : Env :=
-  { sfx := constSfx "-AAAAAQ", enc := fun _ => "X", dec := fun _ => some (obj [("retries", num 1)]) }
+  { sfx := constSfx "-AAAAAQ",
+    enc := fun j => if j == obj [("retries", num 1)] then "A"
+                    else if j == obj [("spec", obj [("n", num 2)])] then "B" else "X",
+    dec := fun s => if s == "A" then some (obj [("retries", num 1)])
+                    else if s == "B" || s == "B\n" then some (obj [("spec", obj [("n", num 2)])])
+                    else none }
 def c0 : AnnCfg := ⟨"my-op.example.com".toList, true, false, "touch-dummy".toList⟩
 /-- a ReplicaSet owned by a Deployment, with a user annotation -/
 def body0 : J := obj [("kind", str "ReplicaSet"),
@@ -546,6 +925,7 @@ example : isDRS body0 = true := by decide
 example : (makeKeys c0.pfx c0.v1 env0.sfx (markKey true k0)).length = 2 := by decide
 example : wf (obj []) = true ∧ MarkStable (obj []) := ⟨by decide, markStable_nil⟩
 example : env0.dec (env0.enc (obj (stored c0.verbose r0))) = some (obj (stored c0.verbose r0)) := by rfl
+example : env0.dec (env0.enc (obj [("spec", obj [("n", num 2)])]) ++ newline) = some (obj [("spec", obj [("n", num 2)])]) := by rfl
 example : (match annStore env0 c0 body0 (obj []) k0 r0 with | .ok _ => true | _ => false) = true := by decide
 example : (match annPurge env0 c0 body0 (obj []) k0 with | .ok _ => true | _ => false) = true := by decide
 example : FlatRec r0 := ⟨by decide, by decide⟩
@@ -554,11 +934,56 @@ example : validPrefix kz = true ∧ validPrefix c0.pfx = true := by decide
 example : IdOk k0 ∧ EdgeAlnum (safeKey k0) ∧ GoodSfx (env0.sfx k0) := by decide
 example : IdOk "Outer.<locals>.fn/sub/spec.field".toList ∧
     EdgeAlnum (safeKey "Outer.<locals>.fn/sub/spec.field".toList) := by decide
-/-- `valid_name_v1`'s room hypothesis holds for the default prefix and the real suffix length -/
+/-- `valid_name_v1_partial`'s room hypothesis holds for the default prefix and the real suffix length -/
 example : (pre kz).length + (env0.sfx (safeKey k0)).length < 63 := by decide
-/-- `distinct`: two long ids sharing a 64-character prefix, different (equal-length) suffixes -/
+/-- `distinct_partial`: two long ids sharing a 64-character prefix, different (equal-length) suffixes -/
 example : let sfx : Str → Str := fun k => if k.length = 64 then "-AAAAAQ".toList else "-BBBBBQ".toList
     (xs 64).length > 63 ∧ (xs 65).length > 63 ∧ (sfx (xs 64)).length = (sfx (xs 65)).length ∧ sfx (xs 64) ≠ sfx (xs 65) := by
   decide
+
+/-! Multi storages: a nested tree `Multi[Multi[Annotations], Status, Multi[]]` on the ReplicaSet -/
+
+def sc0 : StatusCfg := ⟨["status", "kopf", "progress"], ["status", "kopf", "dummy"], false⟩
+def t0 : STree := .multi [.multi [.leaf (.ann c0)], .leaf (.status sc0), .multi []]
+
+example : t0.flatten = [.ann c0, .status sc0] := rfl
+example : (match STree.store env0 body0 k0 r0 (obj []) t0 with | .ok _ => true | _ => false) = true := by decide
+example : (match STree.purge env0 body0 k0 (obj []) t0 with | .ok _ => true | _ => false) = true := by decide
+example : PlainPrefix c0.pfx := ⟨by decide, by decide⟩
+
+/-- `roundtrip_multi_apart` applied: whatever patch the store on the tree produces, the tree reads
+    the record back from the patched ReplicaSet -/
+example : ∀ p', STree.store env0 body0 k0 r0 (obj []) t0 = .ok p' →
+    STree.fetch env0 (mergePatch body0 p') k0 t0 = .ok (some (obj [("retries", num 1)])) :=
+  fun p' h => roundtrip_multi_apart env0 t0 c0 [.status sc0] rfl body0 (obj []) p' k0 r0 rfl
+    (by decide) markStable_nil (by decide) ⟨by decide, by decide⟩
+    (by intro l hl; simp at hl; subst hl; exact ⟨"status", _, rfl, by decide, by decide⟩) h
+
+/-- `purge_complete_multi` applied to the same tree -/
+example : ∀ p', STree.purge env0 body0 k0 (obj []) t0 = .ok p' →
+    ∀ x, STree.fetch env0 (mergePatch body0 p') k0 t0 ≠ .ok (some x) :=
+  fun p' h => purge_complete_multi env0 t0 body0 (obj []) p' k0 (by decide) markStable_nil
+    (by intro sc hsc
+        have : sc = sc0 := by simpa [show t0.flatten = [.ann c0, .status sc0] from rfl] using hsc
+        subst this; exact ⟨"status", _, rfl, by decide, by decide⟩)
+    (by intro sc sc' hsc hsc'
+        have e1 : sc = sc0 := by simpa [show t0.flatten = [.ann c0, .status sc0] from rfl] using hsc
+        have e2 : sc' = sc0 := by simpa [show t0.flatten = [.ann c0, .status sc0] from rfl] using hsc'
+        subst e1; subst e2; exact Or.inl rfl) h
+
+/-- `isolation_ids_short`: `v1 = False`, a field handler and a sub-handler with different safe forms -/
+def c1 : AnnCfg := ⟨kz, false, false, "touch-dummy".toList⟩
+example : (markKey (isDRS body0) "fn/spec.a".toList).length ≤ 63 ∧ (markKey (isDRS body0) "fn/sub_b".toList).length ≤ 63 ∧
+    safeKey "fn/spec.a".toList ≠ safeKey "fn/sub_b".toList ∧
+    safeKey (markKey (isDRS body0) "fn/sub_b".toList) ≠ "kopf-managed".toList ∧ c1.pfx ≠ [] := by decide
+example : (match annStore env0 c1 body0 (obj []) "fn/spec.a".toList r0, annPurge env0 c1 body0 (obj []) "fn/spec.a".toList with
+    | .ok _, .ok _ => true | _, _ => false) = true := by decide
+/-- `foreign_annotation_untouched`: the user annotation `note` is not `<prefix>/…` -/
+example : ∀ x, "note".toList ≠ c0.pfx ++ '/' :: x := by
+  intro x e
+  have h : ("note".toList).take 1 = (c0.pfx ++ '/' :: x).take 1 := congrArg (List.take 1) e
+  have h2 : (c0.pfx ++ '/' :: x).take 1 = ['m'] := rfl
+  rw [h2] at h
+  revert h; decide
 
 end Kopf.C16
